@@ -249,6 +249,8 @@ pub fn extract_targets_from_node(targets: Vec<Target>, node: Node) -> Vec<Node> 
 
 //Extract target ast node types from a parent node
 pub fn walk_node_for_targets(targets: &HashSet<Target>, node: Node) -> Vec<Node> {
+    #[cfg(solstat_verif)]
+    crate::verif_shim::yield_point("walk_node_for_targets");
     let mut matches = vec![];
 
     if targets.contains(&node.as_target()) {
